@@ -1,9 +1,9 @@
 SPECIFICATION Spec
 CONSTANTS
   Regions = {1, 2}
-  Handles = {1, 2, 3}
+  Handles = {1, 2}
   MaxAbs = 1
-  WithShrink = FALSE
+  WithShrink = TRUE
   WithStreams = FALSE
   WithNested = FALSE
   GenDepth = 99
